@@ -69,7 +69,7 @@ class PartResult:
 class Native:
     """A Rust program under /verif/exec/<dir>/main.rs compiled against the real sources."""
 
-    def __init__(self, name, src, env=None, quick_args=(), thorough_args=(), rule='', timeout=900, prepare=None, rustc_args=()):
+    def __init__(self, name, src, env=None, quick_args=(), thorough_args=(), rule='', timeout=900, prepare=None, rustc_args=(), cargo_deps=None):
         self.name = name
         self.src = src
         self.env = env or {}
@@ -79,6 +79,7 @@ class Native:
         self.timeout = timeout
         self.prepare = prepare
         self.rustc_args = list(rustc_args)
+        self.cargo_deps = cargo_deps      # text of a [dependencies] section => build with cargo (offline) instead of rustc
         self._bin = None
 
     def build(self):
@@ -90,6 +91,20 @@ class Native:
         if self.prepare:
             env.update(self.prepare(workdir()) or {})
         out = os.path.join(workdir(), 'native_' + self.name)
+        if self.cargo_deps is not None:
+            d = os.path.join(workdir(), 'cargo_' + self.name)
+            os.makedirs(d, exist_ok=True)
+            with open(os.path.join(d, 'Cargo.toml'), 'w') as f:
+                f.write('[package]\nname = "native_%s"\nversion = "0.0.0"\nedition = "2021"\n[dependencies]\n%s\n[[bin]]\nname = "native_%s"\npath = "%s"\n[workspace]\n[profile.release]\ndebug-assertions = true\noverflow-checks = true\n'
+                        % (self.name, self.cargo_deps, self.name, os.path.join(VERIF, 'exec', self.src)))
+            env['CARGO_NET_OFFLINE'] = 'true'
+            env['CARGO_TARGET_DIR'] = os.path.join(d, 'target')
+            p = subprocess.run(['cargo', 'build', '--offline', '--release', '--quiet'], cwd=d, env=env, stdout=subprocess.PIPE, stderr=subprocess.PIPE, text=True)
+            if p.returncode != 0:
+                raise RuntimeError('native harness %s does not build against the current tree:\n%s' % (self.name, p.stderr[-4000:]))
+            out = os.path.join(d, 'target', 'release', 'native_' + self.name)
+            self._bin = out
+            return out
         cmd = ['rustc', '-O', '-C', 'debug-assertions=on', '-C', 'overflow-checks=on', '--edition', '2021', '--cap-lints', 'allow'] + self.rustc_args + ['-o', out,
                os.path.join(VERIF, 'exec', self.src)]
         p = subprocess.run(cmd, env=env, stdout=subprocess.PIPE, stderr=subprocess.PIPE, text=True)
@@ -203,8 +218,8 @@ class ProofPart:
         with open(path, 'w') as f:
             f.write(text)
         rl = getattr(u, 'RLIMIT', 50) * (4 if tier == 'thorough' else 1)
-        res = verus_run.run(path, rlimit=rl)
-        r.checker_cmd = 'verus <assembled %s> --rlimit %d  (%s)' % (self.label, rl, res.get('verus_version') or 'verus')
+        res = verus_run.run(path, rlimit=rl, extra=getattr(u, 'VERUS_EXTRA', ()))
+        r.checker_cmd = 'verus <assembled %s> --rlimit %d %s (%s)' % (self.label, rl, ' '.join(getattr(u, 'VERUS_EXTRA', ())), res.get('verus_version') or 'verus')
         r.smt_ms = res.get('smt_ms', 0)
         lost = [(it.name, w) for it in asm.items() for w in it.lost]
         for nm, w in lost:
@@ -229,7 +244,7 @@ class ProofPart:
             # vacuity guard (i): every listed exec function verified
             want = self._want()
             missing = [w for w in want if not (fn_by_name.get(w) and fn_by_name[w]['success'] and fn_by_name[w]['mode'] == 'exec')]
-            if missing or not want:
+            if missing or (not want and not getattr(u, 'LEMMA_ONLY', False)):
                 r.status = 'undecided'
                 r.reason = 'vacuity-guard: exec functions not reported verified: %s' % missing
             # trusted-base allow-list
@@ -284,7 +299,7 @@ class ProofPart:
         path = os.path.join(workdir(), _slug(self.label) + '_canary.rs')
         with open(path, 'w') as f:
             f.write(text)
-        res = verus_run.run(path, rlimit=getattr(self.unit, 'CANARY_RLIMIT', 10))
+        res = verus_run.run(path, rlimit=getattr(self.unit, 'CANARY_RLIMIT', 10), extra=getattr(self.unit, 'VERUS_EXTRA', ()))
         fn = {f['name'].split('::', 1)[-1]: f for f in res.get('functions', [])}
         passed = [w for w in want if fn.get(w) and fn[w]['success']]
         r.canary = {'functions': len(want), 'failed_as_required': len(want) - len(passed), 'smt_ms': res.get('smt_ms', 0)}
